@@ -136,7 +136,7 @@ theorem step_measure {s : St} (h : s.halted = false) : (step specs s).measure < 
     rw [hm]
     unfold exitStep
     split
-    · rename_i a l cs hcs
+    · rename_i a ck q cs hcs
       have hfm : fr.measure = progSize fr.kont + cs.length + 3 := by
         simp [Frame.measure, hcs]; omega
       rw [hfm]
